@@ -316,6 +316,25 @@ impl Exec {
                 let dims = a.dimensions().to_vec();
                 let tracked = probe_tracked(&a);
                 let grad = a.replace_gradient();
+                // residue probe: with every derived result gone, a fresh pass through the array must behave as on a
+                // new array (a counter or pending value left behind by an earlier pass would show here)
+                a.start_tracking();
+                let fresh = guarded(|| {
+                    let t = &a * (2.0 as Float);
+                    t.backward(None);
+                    let g = a.replace_gradient();
+                    drop(t);
+                    g.map(|g| g.dimensions() == a.dimensions() && g.values().iter().all(|v| *v == 2.0))
+                });
+                if !tracked {
+                    a.stop_tracking();
+                }
+                match fresh {
+                    Ok(Some(true)) => {}
+                    Ok(Some(false)) => return Err("left with pending state: a fresh pass y = 2*x; y.backward(None) gives x a gradient other than 2".to_string()),
+                    Ok(None) => return Err("left with pending state: a fresh pass y = 2*x; y.backward(None) gives x no gradient at all".to_string()),
+                    Err(p) => return Err(format!("left with pending state: a fresh pass y = 2*x; y.backward(None) panics: {}", p)),
+                }
                 let v: Vec<Float> = guarded(move || Vec::<Float>::from(a)).map_err(|p| format!("not the sole owner of its buffer: {}", p))?;
                 let b = Array::from((dims, v));
                 let b = if tracked { b.tracked() } else { b };
